@@ -396,6 +396,90 @@ def run(chk, F, tier):
             chk.check(bool(re_tests) or re_in_closure, "R20e", "globals-regex@%s" % b.id,
                       "UndefinedGlobal reported without consulting diagnostics.globalsRegex", b.loc(c["l"]))
     chk.floor("UndefinedGlobal report sites", n_e, 1)
+    # ---- R20f: every configured severity override is copied into the diagnostic configuration ------------------------------------
+    import cfgutil as _cfg
+    import dataflow as _df
+    chk.rule("R20f", "LuaDiagnosticConfig::new copies every entry of diagnostics.severity: no filter between the configured map and the effective one "
+                     "(a code that is disabled in the workspace but re-enabled by a file must still get its configured severity)")
+    cfgnew = F.bodies.get("emmylua_code_analysis::diagnostic::lua_diagnostic_config::LuaDiagnosticConfig::new")
+    if cfgnew is None:
+        raise RuleBroken("LuaDiagnosticConfig::new not found")
+    bodies = [cfgnew] + [x for k, x in F.bodies.items() if k.startswith(cfgnew.id + "::{closure")]
+    # iterators over the `severity` field
+    sev_iter_locals = set()
+    for blk in cfgnew.blocks:
+        for st in blk[1]:
+            if st[0] == "a" and len(st[1]) == 1 and st[2][0] == "ref" and any(isinstance(e, list) and e[0] == "f" and e[2] == "severity" for e in st[2][2][1:]):
+                sev_iter_locals.add(st[1][0])
+    changed = True
+    while changed:
+        changed = False
+        for blk in cfgnew.blocks:
+            for st in blk[1]:
+                if st[0] == "a" and len(st[1]) == 1 and st[1][0] not in sev_iter_locals and st[2][0] in ("use", "ref"):
+                    srcp = st[2][2] if st[2][0] == "ref" else (st[2][1][1] if st[2][1][0] in ("c", "m") else None)
+                    if srcp and srcp[0] in sev_iter_locals:
+                        sev_iter_locals.add(st[1][0])
+                        changed = True
+            t = blk[2]
+            if t[0] == "call" and len(t[1]["d"]) == 1 and t[1]["d"][0] not in sev_iter_locals and t[1]["a"] and \
+                    t[1]["a"][0][0] in ("c", "m") and t[1]["a"][0][1][0] in sev_iter_locals:
+                sev_iter_locals.add(t[1]["d"][0])
+                changed = True
+    chk.floor("values derived from diagnostics.severity in LuaDiagnosticConfig::new", len(sev_iter_locals), 2)
+    filt = [c for bb, c in cfgnew.calls() if (c.get("r") or c.get("f") or "").split("::")[-1] in ("filter", "filter_map", "take_while", "skip_while", "take", "skip", "step_by")
+            and c["a"] and c["a"][0][0] in ("c", "m") and c["a"][0][1][0] in sev_iter_locals]
+    ok = not filt
+    why = "an iterator adaptor (%s) drops entries" % [(c.get("r") or c.get("f")).split("::")[-1] for c in filt] if filt else ""
+    # loop form: every iteration inserts
+    succ = cfgnew.succ_map()
+    loops = _cfg.natural_loops(succ, 0)
+    for h, body in loops.items():
+        nexts = [x for x in body if cfgnew.blocks[x][2][0] == "call" and (cfgnew.blocks[x][2][1].get("f") or "").endswith("Iterator::next") and
+                 cfgnew.blocks[x][2][1]["a"] and cfgnew.blocks[x][2][1]["a"][0][0] in ("c", "m") and cfgnew.blocks[x][2][1]["a"][0][1][0] in sev_iter_locals]
+        if not nexts:
+            continue
+        ins = {x for x in body if cfgnew.blocks[x][2][0] == "call" and (cfgnew.blocks[x][2][1].get("r") or cfgnew.blocks[x][2][1].get("f") or "").endswith("::insert")}
+        for nb in nexts:
+            t = cfgnew.blocks[nb][2][1]
+            # the Some edge of next(): follow to the switch
+            sub = {x: [y for y in succ[x] if y in body] for x in body}
+            some = None
+            cur = t["t"]
+            for _ in range(3):
+                tt = cfgnew.blocks[cur][2]
+                if tt[0] == "sw":
+                    some = [tb for v, tb in tt[2] if v == 1] or [tt[3]]
+                    break
+                if tt[0] in ("goto", "fe", "fu"):
+                    cur = tt[1]
+                else:
+                    break
+            for s0 in some or []:
+                p_ = _cfg.paths_avoiding(sub, s0, {h}, ins)
+                if p_ is not None:
+                    ok = False
+                    why = "an iteration over diagnostics.severity can skip the insert"
+    chk.check(ok, "R20f", "severity-copied-unfiltered",
+              "LuaDiagnosticConfig::new does not copy every configured severity override (%s): a code whose override was dropped is reported with its default "
+              "severity when a file re-enables it" % why, cfgnew.loc(), sample={"rule": "R20f", "verdict": "every entry copied"})
+
+    # ---- R20g: a named `---@meta module` file stays meta -----------------------------------------------------------------------------------
+    chk.rule("R20g", "analyze_doc_tag_meta marks the file as meta after every re-registration of its module info (add_module_by_module_path builds a fresh "
+                     "ModuleInfo with is_meta = false)")
+    am = F.bodies.get("emmylua_code_analysis::compilation::analyzer::decl::docs::analyze_doc_tag_meta")
+    if am is None:
+        raise RuleBroken("analyze_doc_tag_meta not found")
+    succ = am.succ_map()
+    regs = [bb for bb, c in am.calls() if (c.get("r") or c.get("f") or "").endswith("LuaModuleIndex::add_module_by_module_path")]
+    metas = {bb for bb, c in am.calls() if (c.get("r") or c.get("f") or "").endswith("LuaModuleIndex::set_meta")}
+    chk.floor("module re-registrations in analyze_doc_tag_meta", len(regs), 1)
+    for i, rb in enumerate(regs):
+        p_ = _cfg.paths_avoiding(succ, am.blocks[rb][2][1]["t"], set(am.returns()), metas)
+        chk.check(p_ is None, "R20g", "meta-after-register#%d" % (i + 1),
+                  "analyze_doc_tag_meta re-registers the file's module (add_module_by_module_path) and can return without set_meta afterwards: a "
+                  "`---@meta some.module` file loses its meta flag and is diagnosed like ordinary code", am.loc(am.blocks[rb][2][1]["l"]),
+                  witness={"path_blocks": p_}, sample={"rule": "R20g", "verdict": "set_meta follows on every path"})
     chk.explanation = ("Constant propagation of DiagnosticCode through each checker's call tree against its CODES; "
                        "registration table; dominance/guard-edge checks on the single diagnostic constructor, "
                        "diagnose_file and the precedence chain.")
